@@ -350,10 +350,10 @@ def plan(tier, seed):
     q = tier == "quick"
     specs = []
     for dt in ("int16", "float32", "float64"):
-        for i in range(4 if q else 8):
-            specs.append({"kind": "pixels", "dtype": dt, "sub": i, "cases": 400 if q else 5000, "budget_s": 100 if q else 1500})
+        for i in range(4 if q else 10):
+            specs.append({"kind": "pixels", "dtype": dt, "sub": i, "cases": 400 if q else 15000, "budget_s": 100 if q else 600})
     for i in range(4 if q else 8):
-        specs.append({"kind": "cubes", "sub": i, "cases": 45 if q else 500, "budget_s": 100 if q else 1500})
+        specs.append({"kind": "cubes", "sub": i, "cases": 45 if q else 1500, "budget_s": 100 if q else 600})
     return specs
 
 
